@@ -14,7 +14,8 @@ PID = "C19"
 LEVEL = "exploration"
 RULE = ("a generated dataset class (own and inherited members: Options with flat and dotted keys, defaulted Options, "
         "datasets, collection expressions, annotated and un-annotated constants) x a pair of option dictionaries related "
-        "by an edit of an irrelevant key / a relevant flat key / a relevant nested key / a defaulted key / nothing. Checked: "
+        "by an edit of an irrelevant key / a relevant flat key / a relevant nested key / a defaulted key / a key whose name "
+        "extends another reported key without lying inside it (A / AB, S.X / S.XY) / nothing. Checked: "
         "every evaluatable member of the instance equals that member's own evaluation and every plain member its "
         "constant; class keys / explain are the union over members and class validate fails iff some member's does; two "
         "instances are equal exactly when the dictionaries restricted to the keys the class reports for them are equal "
@@ -26,6 +27,7 @@ ASSUMPTIONS = [
 ]
 
 NAMES = ["a", "b", "c", "d", "e"]
+LOOKALIKE = ["AB", "S.XY", "R.UV", "SX"]
 
 
 def make_class(case, built):
@@ -192,7 +194,10 @@ def cases(draw):
         g.defs.append(g.dataset_def(i))
 
     def member(name):
-        kind = draw(st.sampled_from(["flat", "dotted", "dotted", "defaulted", "ds", "expr", "const", "const_ann"]))
+        kind = draw(st.sampled_from(["flat", "dotted", "dotted", "defaulted", "ds", "expr", "const", "const_ann", "lookalike"]))
+        if kind == "lookalike":
+            # a key that extends another reported key as a string without being inside it (A / AB, S.X / S.XY)
+            return {"name": name, "kind": "node", "node": {"k": "opt", "key": draw(st.sampled_from(LOOKALIKE))}, "annotated": draw(st.booleans())}
         if kind == "flat":
             return {"name": name, "kind": "node", "node": {"k": "opt", "key": draw(st.sampled_from(U.FLAT))}, "annotated": draw(st.booleans())}
         if kind == "dotted":
@@ -213,11 +218,19 @@ def cases(draw):
     own = [member(nm) for nm in names[:n_own]]
     base = [member(nm) for nm in names[n_own:n_own + n_base]]
     o1 = draw(U.option_dicts(templates=False, p_present=0.9))
-    relation = draw(st.sampled_from(["same", "irrelevant", "flat", "nested", "nested", "delete"]))
+    for k in LOOKALIKE:
+        if draw(st.integers(0, 9)) > 0:
+            o1 = U.dotted_set(o1, k, draw(st.sampled_from([1, 2, "q", None, False])))
+    used = [m["node"]["key"] for m in own + base if m["kind"] == "node" and m["node"].get("key") in LOOKALIKE]
+    relation = draw(st.sampled_from(["same", "irrelevant", "flat", "nested", "nested", "delete"] + (["lookalike"] * 3 if used else [])))
     if relation == "same":
         o2 = copy.deepcopy(o1)
     elif relation == "irrelevant":
         o2 = U.dotted_set(o1, draw(st.sampled_from(U.UNMENTIONED[:2] + ["E"])), draw(U.scalars()))
+    elif relation == "lookalike":
+        k = draw(st.sampled_from(used))
+        cur = U.dotted_get(o1, k)
+        o2 = U.dotted_set(o1, k, draw(st.sampled_from([v for v in [1, 2, "q", None, False] if sem.typed(v) != sem.typed(cur)])))
     elif relation == "flat":
         o2 = U.dotted_set(o1, draw(st.sampled_from(U.FLAT + ["T"])), draw(st.sampled_from([1, 2, "q", None])))
     elif relation == "nested":
